@@ -2,6 +2,9 @@
    function (gates.inc, generated), run in the stub TypeChecker environment. */
 #include "tc_env.h"
 #include "helpers.inc"
+/* free helper predicates of typechecker.cpp that a gate slice may mention: arbitrary verdicts */
+static bool hasStrictLowerBound(expression_t) { bool b; return b; }
+static bool hasStrictUpperBound(expression_t) { bool b; return b; }
 #include "gates.inc"
 
 /* node 0 = the gated expression X: arbitrary kind/type, ghost `changes`; if array_node it is an
